@@ -292,7 +292,12 @@ impl<'a> BufRead for SimReader<'a> {
             self.stats.parked += 1;
         }
         if self.plan.delay_at == Some(idx) {
-            crate::entropy::advance_clock(self.plan.delay_secs);
+            // an odd number of seconds moves all clocks forward; an even number steps the wall clock back by that much
+            if self.plan.delay_secs % 2 == 1 {
+                crate::entropy::advance_clock(self.plan.delay_secs);
+            } else {
+                crate::entropy::step_wall_clock_back(self.plan.delay_secs);
+            }
             self.stats.delayed += 1;
         }
         if self.plan.nested_at == Some(idx) {
